@@ -893,7 +893,24 @@ impl Analyzable for PropertyOp {
             other => other.analyze(self.scope.clone()),
         };
 
-        object + path
+        // the operand must be something that has this property / can be indexed this way
+        let mut access = AnalyzeReport::default();
+
+        if object.is_empty() && path.is_empty() {
+            let found = self
+                .operand
+                .target_type()
+                .and_then(|ty| ty.property_index(*self.property.clone()));
+
+            if found.is_none() {
+                access.errors.push(Error::invalid_expression(
+                    "the operand has no such property or index",
+                    &self.span,
+                ));
+            }
+        }
+
+        object + path + access
     }
 
     fn is_resolved(&self) -> bool {
